@@ -100,6 +100,10 @@ def cases():
 BASES = {
     'idle': (),
     'connecting': (('connect', 0, True, 0, 4),),
+    # a rebuilt, still idle protocol whose address carries the session of an earlier persistent connection
+    'idle-with-session': (('connect', 0, False, 0, 4), ('connack', 0, 0, False), ('setwin', 0, 1), ('pub', 0, 1), ('pub', 0, 2),
+                          ('sub', 0, 'str'), ('inpub', 0, 2, False, False, 9, 'short'), ('lose', 0, 'done'), ('tick', 0),
+                          ('rebuild', 0)),
     'connected': (('connect', 0, True, 0, 4), ('connack', 0, 0, False), ('setwin', 0, 3)),
     'connected-busy': (('connect', 0, False, 0, 3), ('connack', 0, 0, False), ('setwin', 0, 3), ('pub', 0, 1), ('pub', 0, 2),
                        ('sub', 0, 'str'), ('unsub', 0, 'str')),
@@ -111,7 +115,7 @@ ALLOWED = {   # entry point -> base states (and profiles) in which the call is o
     'setWindowSize': ('idle', 'connecting', 'connected', 'connected-busy', 'connected-ka'),
     'setTimeout': ('idle', 'connecting', 'connected', 'connected-busy', 'connected-ka'),
     'setBandwith': ('idle', 'connecting', 'connected', 'connected-busy', 'connected-ka'),
-    'connect': ('idle',),
+    'connect': ('idle', 'idle-with-session'),
     'publish': ('connecting', 'connected', 'connected-busy', 'connected-ka'),
     'subscribe': ('connected', 'connected-busy'),
     'unsubscribe': ('connected', 'connected-busy'),
@@ -140,8 +144,11 @@ def evaluate(profile, base, case):
             continue
         if ev[0] == 'ack' and profile == 'sub':
             continue
+        if ev[0] == 'inpub' and profile == 'pub':
+            continue
         w.apply(ev)
     before = masked_canon(w)
+    pend0 = [r.pending for r in w.reqs]
     timers0 = len(w.pending_calls())
     w.apply(('call', 0, name, args, kwargs))
     r = w.calls[-1]
@@ -173,7 +180,10 @@ def evaluate(profile, base, case):
                        '%s(%s) raised %s instead of returning a failed Deferred' % (name, _short(args, kwargs), r.exc)))
     if wrote:
         v.append(V('atomic', 'refused-call-wrote/%s' % tag, 'wrote %r' % wrote))
-    if after != before:
+    if [r.pending for r in w.reqs[:len(pend0)]] != pend0:
+        v.append(V('atomic', 'refused-call-settled-pending-requests/%s' % name, '%s(%s) in %s/%s refused, but pending requests '
+                   'were settled by it' % (name, _short(args, kwargs), profile, base)))
+    elif after != before:
         v.append(V('atomic', 'refused-call-changed-state/%s' % tag, '%s(%s) in %s/%s refused but the state changed' % (name, _short(args, kwargs), profile, base)))
     if len(w.pending_calls()) != timers0:
         v.append(V('atomic', 'refused-call-started-timer/%s' % tag, ''))
